@@ -332,11 +332,13 @@ C07Cases == (IF Has("TS") THEN {[fam |-> "TS", c |-> c] : c \in TSCases} ELSE {}
 \* the programs of RPMany rounds need more steps than MaxSteps (EnumTerminates: none of them runs into the bound)
 C07LongSteps == 40000
 C07LongNext == ~Halted(mst) /\ mst' = Step(mst, C07LongSteps) /\ UNCHANGED <<rec_i, cur>>
-\* the judge re-runs the reference next to the engine's observation: k steps per transition (the invariants of the machine
-\* are checked on every single state of the same programs in the enumeration run)
+\* the judge re-runs the reference next to the engine's observation; for records marked `rounds` (family RP) it takes k
+\* steps per transition under the larger bound (the invariants of the machine are checked on every single state of the
+\* same programs in the enumeration run)
 RECURSIVE StepK(_, _)
 StepK(st, k) == IF k = 0 \/ Halted(st) THEN st ELSE StepK(Step(st, C07LongSteps), k - 1)
-C07LongJudgeNext == ~Halted(mst) /\ mst' = StepK(mst, 25) /\ UNCHANGED <<rec_i, cur>>
+C07JudgeNext == /\ ~Halted(mst) /\ UNCHANGED <<rec_i, cur>>
+                /\ mst' = IF "rounds" \in DOMAIN Recs[rec_i] THEN StepK(mst, 25) ELSE Step(mst, MaxSteps)
 C07EnumInit == /\ rec_i = 0 /\ cur \in C07Cases /\ mst = InitState(C07Prog(cur), {})
 C07EnumEmit == ~Halted(mst) \/ PrintT(ToJson([fam |-> cur.fam, par |-> cur.c, prog |-> C07Prog(cur), steps |-> mst.steps]))
 \* a finally block that has been entered is left before its try statement's continuation frame disappears, and a thrown
